@@ -184,3 +184,5 @@ _JOE_LABELS = ["SubEnter", "SubClosed", "SubSend", "SubDone", "SubCtx", "SubUnsu
                "LFlush", "LFail", "LRemove", "LRemoveSkip", "LReplay", "LRSend", "LRFlush", "LReplayed", "LReject", "LReg", "LDone", "LExit"]
 for _f in ("joe_c06", "joe_c07", "joe_c03", "joe_c17", "joe_c04", "joe_c03_resume"):
     FAMILIES[_f]["cover_names"] = _JOE_LABELS
+PROPS["C17"]["level_text"] += (" The monitor also requires that, while no replayer panic has been observed, the loop starts no fan-out for a publication "
+                               "it has not put to the replayer (a Put ERROR never takes the replayer out of use).")
